@@ -1,5 +1,6 @@
 import Driver.Frame
 import KrakenModel.Model.AnnounceQueue
+import KrakenModel.Model.SchedQueue
 /- Driver for C20: replays announce-queue transcripts on the model and monitors the property
    predicates on what the implementation returned. -/
 open Driver KrakenModel.AnnounceQueue
@@ -69,4 +70,116 @@ def machine : Machine := { σ := St, name := "aq", init := fun _ => some {}, ste
 
 end C20
 
-def main (args : List String) : IO UInt32 := runMachines [C20.machine] args
+/- Second machine, `aqs`: scheduler-level use of the announce queue. Replays schedules of scheduler
+   events on Model.SchedQueue (the repaired code) and compares, per event, the exact sequence of calls the
+   real scheduler made on the real queue (with what Next returned), the torrent controls afterwards and the
+   final drain of the queue. -/
+namespace C20S
+open KrakenModel.SchedQueue
+
+def ntor : Nat := 2
+
+structure St where
+  m : KrakenModel.SchedQueue.State := {}
+  sat : List Nat := []
+  cached : List Nat := []
+  implCtrl : List Nat := []     -- torrents that have a control according to the implementation's last `st`
+
+def hashTok (h : Nat) : String := s!"h{h}"
+
+/-- run queue operations, rendering each call the way the recorder does -/
+def renderOps (q : KrakenModel.AnnounceQueue.State) (ops : List Op) : List String :=
+  (ops.foldl (fun (acc : KrakenModel.AnnounceQueue.State × List String) o =>
+    let tok := match o with
+      | .add h => s!"add:h{h}"
+      | .next => (match (KrakenModel.AnnounceQueue.next acc.1).2 with | some h => s!"next:h{h}" | none => "next:-")
+      | .ready h => s!"ready:h{h}"
+      | .eject h => s!"eject:h{h}"
+    (KrakenModel.AnnounceQueue.step acc.1 o, acc.2 ++ [tok])) (q, [])).2
+
+def stObs (s : St) : List String :=
+  ((List.range ntor).map fun h => match s.m.ctrl h with
+    | some (g, c) => s!"h{h}=g{g}:c{boolTok c}"
+    | none => s!"h{h}=-") ++
+  ["sat=" ++ String.join ((List.range ntor).map fun h => boolTok (h ∈ s.sat))]
+
+def act (s : St) (a : Action) (first : List String) (br : String) (pf : List String := []) : Option (St × StepOut) :=
+  let calls := renderOps s.m.q (queueOps true s.m a)
+  some ({ s with m := KrakenModel.SchedQueue.step true s.m a },
+        { obs := first ++ ["calls=" ++ listTok calls], branch := br, propfails := pf })
+
+def step (s : St) (kind : String) (args impl : List String) : Option (St × StepOut) :=
+  if kind = "st" then
+    let ic := (List.range ntor).filter fun h => match kv? impl s!"h{h}" with | some v => v ≠ "-" | none => false
+    some ({ s with implCtrl := ic }, { obs := stObs s, branch := "st" })
+  else if kind ≠ "op" then none else
+  match args with
+  | ["adv", d] => do let _ ← d.toNat?; pure (s, { obs := ["calls=-"], branch := "adv" })
+  | ["req", ht] => do
+    let h ← C20.hash? ht
+    let c := decide (h ∈ s.cached)
+    let br := if (s.m.ctrl h).isSome then "req.existing" else if h ∈ s.m.q.ready ∨ h ∈ s.m.q.pending then "req.add-while-queued" else if c then "req.add.cached" else "req.add"
+    act s (.request h c) [] br
+  | ["finish", ht] => do
+    let h ← C20.hash? ht
+    let r := match s.m.ctrl h with | some (_, false) => "ok" | some (_, true) => "dup" | none => "absent"
+    act { s with cached := if r = "ok" then h :: s.cached else s.cached } (.finish h) [r] ("finish." ++ r)
+  | ["notice", ht, gt] => do
+    let h ← C20.hash? ht
+    let g ← (match gt.toList with | 'g' :: ds => (String.ofList ds).toNat? | _ => none)
+    let r := if (h, g) ∈ s.m.notices then "applied" else "none"
+    let br := if r = "none" then "notice.none" else match s.m.ctrl h with
+      | some (g', _) => if g' = g then "notice.own" else "notice.stale"
+      | none => "notice.orphan"
+    act s (.notice h g) [r] br
+  | ["rm", ht] => do
+    let h ← C20.hash? ht
+    let br := match s.m.ctrl h with
+      | some (_, c) => (if c then "rm.complete" else "rm.incomplete") ++ (if h ∈ s.m.q.ready ∨ h ∈ s.m.q.pending then ".queued" else "")
+      | none => "rm.absent"
+    act { s with cached := s.cached.filter (· ≠ h) } (.remove h) [] br
+  | ["tick"] =>
+    let chosen := match kv? impl "dropped" with | some t => (list? t).filterMap C20.hash? | none => []
+    let adm := chosen.filter fun h => (s.m.ctrl h).isSome
+    -- the Go map is iterated in an arbitrary order: follow the order of the implementation's Eject calls
+    let ejected := match kv? impl "calls" with
+      | some t => (list? t).filterMap (fun (c : String) => match c.splitOn ":" with | ["eject", ht] => C20.hash? ht | _ => none)
+      | none => []
+    let order := (ejected.filter (· ∈ adm)).eraseDups ++ adm.filter (· ∉ ejected)
+    let (m', calls) := order.foldl (fun (acc : KrakenModel.SchedQueue.State × List String) h =>
+      (KrakenModel.SchedQueue.step true acc.1 (.remove h), acc.2 ++ renderOps acc.1.q (queueOps true acc.1 (.remove h)))) (s.m, [])
+    some ({ s with m := m' }, { obs := ["dropped=" ++ listTok (adm.map hashTok), "calls=" ++ listTok calls],
+                                branch := if adm.isEmpty then "tick.none" else "tick.drop" })
+  | ["sat", ht] => do
+    let h ← C20.hash? ht
+    pure ({ s with sat := if h ∈ s.sat then s.sat else h :: s.sat }, { obs := ["calls=-"], branch := "sat" })
+  | ["unsat", ht] => do
+    let h ← C20.hash? ht
+    pure ({ s with sat := s.sat.filter (· ≠ h) }, { obs := ["calls=-"], branch := "unsat" })
+  | ["atick"] =>
+    let ops := queueOps true s.m (.announceTick s.sat)
+    let nskip := (ops.filter fun o => match o with | .ready _ => true | _ => false).length
+    let nnext := (ops.filter fun o => o = .next).length
+    act s (.announceTick s.sat) [] s!"atick.next{min nnext 3}.skip{min nskip 2}"
+  | ["ares", ht] => do
+    let h ← C20.hash? ht
+    act s (.announceResult h) [] (if (s.m.ctrl h).isSome then (if h ∈ s.m.q.pending then "ares.requeue" else "ares.noop") else "ares.unknown")
+  | ["aerr", ht] => do
+    let h ← C20.hash? ht
+    act s (.announceErr h) [] (if h ∈ s.m.q.pending then "aerr.requeue" else "aerr.noop")
+  | ["drain"] =>
+    -- the harness Ready()s every torrent and drains the queue; the implementation's answer is checked
+    let q := (List.range ntor).foldl (fun q h => KrakenModel.AnnounceQueue.ready q h) s.m.q
+    let implOrder := match kv? impl "order" with | some t => (list? t).filterMap C20.hash? | none => []
+    let dup := implOrder.filter fun h => implOrder.count h > 1
+    let pf := (if dup.isEmpty then [] else [s!"side=impl key=queued-twice {hashTok (dup.headD 0)} is in the announce queue more than once"]) ++
+      (implOrder.filter (fun h => h ∉ s.implCtrl)).eraseDups.map fun h =>
+        s!"side=impl key=queued-after-removal {hashTok h} is still in the announce queue but has no torrent control"
+    some (s, { obs := ["order=" ++ listTok (q.ready.map hashTok)], branch := s!"drain.{min q.ready.length 2}", propfails := pf })
+  | _ => none
+
+def machine : Machine := { σ := St, name := "aqs", init := fun _ => some {}, step := step }
+
+end C20S
+
+def main (args : List String) : IO UInt32 := runMachines [C20.machine, C20S.machine] args
